@@ -17,10 +17,10 @@
        -> QELinRetPop v at its return; a Pop returning nil -> its return is directly preceded
        (in that thread) by an own step QECand, i.e. an instant inside the call at which, by (1),
        the queue was empty.
-   Since every linearization point lies inside the interval of its operation, ordering the
-   operations by their linearization points respects the real-time order of non-overlapping
-   calls; (1) says that this order is a legal sequential FIFO history (Herlihy-Wing).  The
-   consequences named in the property are [c01_no_loss_dup_invent] and (1) itself. *)
+   (3) [c01_linearizable]: the linearization itself, constructed from the trace (Herlihy-Wing):
+       a legal sequential FIFO history containing each returned operation once with its
+       result, each placed inside its call interval (hence respecting real-time order).
+   The consequences named in the property are [c01_no_loss_dup_invent] and (1). *)
 From Got Require Import Base Queue QueueProofs.
 Local Open Scope nat_scope.
 
@@ -59,6 +59,30 @@ Theorem c01_no_loss_dup_invent :
 Proof. exact q_no_loss_dup_invent. Qed.
 Print Assumptions c01_no_loss_dup_invent.
 
+(* Herlihy-Wing linearizability, with the linearization constructed from the trace:
+   [q_lin tr] lists (thread, operation-with-result) in linearization order: Push v at its
+   link CAS, Pop -> v at its head CAS, Pop -> nil at the own step (QECand) directly followed,
+   in that thread, by the nil return.
+   (a) that sequence is a legal sequential FIFO history from the prefill to the final
+       abstract queue (every Pop -> v takes the then-front v, every Pop -> nil sees the
+       sequential queue empty);
+   (b) for every thread j, [q_tcheck] accepts its events: operations are invoked in program
+       order, every linearization point of j lies strictly after the invocation and not
+       after the return of one of its operations, carries that operation's result, each
+       returned operation has exactly one, and no linearization point occurs outside an
+       operation -- hence an operation that returned before another was invoked precedes it
+       in q_lin (real-time order), and the per-thread part of q_lin is exactly what (b)
+       talks about (c). *)
+Theorem c01_linearizable :
+  forall pre progs sched,
+    let tr := q_trace (q_init pre progs) sched in
+    q_seq_run pre (map snd (q_lin tr)) = Some (q_abs (q_final (q_init pre progs) sched)) /\
+    forall j,
+      q_tcheck TIdle (nth j progs []) (q_proj j tr) = true /\
+      map snd (filter (fun p => Nat.eqb (fst p) j) (q_lin tr)) = q_lin_thread (q_proj j tr).
+Proof. exact q_linearizable. Qed.
+Print Assumptions c01_linearizable.
+
 (* non-vacuity: a concrete 3-thread run with a lagging tail that is helped, a failed CAS,
    an empty Pop and a successful Pop *)
 Example c01_nonvacuous :
@@ -66,5 +90,6 @@ Example c01_nonvacuous :
   let sched := [1;1;1;1;1; 0;0;0;0;0; 2;2;2;2;2;2;2;2;2;2; 0; 1;1;1;1;1;1] in
   In (1, QECand) (q_trace s0 sched) /\ In (1, QERetEmpty) (q_trace s0 sched) /\
   In (1, QELinRetPop 5%Z) (q_trace s0 sched) /\ In (2, QELinPush 6%Z) (q_trace s0 sched) /\
-  q_abs (q_final s0 sched) = [6%Z].
+  q_abs (q_final s0 sched) = [6%Z] /\
+  q_lin (q_trace s0 sched) = [(1, SPopNone); (0, SPush 5%Z); (2, SPush 6%Z); (1, SPopSome 5%Z)].
 Proof. vm_compute. intuition. Qed.
